@@ -526,5 +526,16 @@ theorem tie_When_ConsumeImpl : Extracted.Kernels.When_ConsumeImpl = Skeletons.Wh
 theorem tie_When_CombinatorCallback_Impl : Extracted.Kernels.When_CombinatorCallback_Impl = Skeletons.When_CombinatorCallback_Impl := rfl
 theorem tie_AwaitAwaiterBase_await_ready : Extracted.Kernels.AwaitAwaiterBase_await_ready = Skeletons.AwaitAwaiterBase_await_ready := rfl
 theorem tie_InlineCore_Loop : Extracted.Kernels.InlineCore_Loop = Skeletons.InlineCore_Loop := rfl
+theorem tie_SharedCore_Next : Extracted.Kernels.SharedCore_Next = Skeletons.SharedCore_Next := rfl
+theorem tie_Split : Extracted.Kernels.Split = Skeletons.Split := rfl
+theorem tie_Share : Extracted.Kernels.Share = Skeletons.Share := rfl
+theorem tie_MakeSharedContractOn : Extracted.Kernels.MakeSharedContractOn = Skeletons.MakeSharedContractOn := rfl
+theorem tie_SharedFutureOn_On : Extracted.Kernels.SharedFutureOn_On = Skeletons.SharedFutureOn_On := rfl
+theorem tie_UniqueCore_Here : Extracted.Kernels.UniqueCore_Here = Skeletons.UniqueCore_Here := rfl
+theorem tie_Promise_Set : Extracted.Kernels.Promise_Set = Skeletons.Promise_Set := rfl
+theorem tie_Promise_dtor : Extracted.Kernels.Promise_dtor = Skeletons.Promise_dtor := rfl
+theorem tie_Destroy_await_suspend : Extracted.Kernels.Destroy_await_suspend = Skeletons.Destroy_await_suspend := rfl
+theorem tie_PromiseType_return_value : Extracted.Kernels.PromiseType_return_value = Skeletons.PromiseType_return_value := rfl
+theorem tie_PromiseTypeDeleter_Delete : Extracted.Kernels.PromiseTypeDeleter_Delete = Skeletons.PromiseTypeDeleter_Delete := rfl
 
 end Yaclib.Props.C06.Tie
